@@ -44,4 +44,7 @@ theorem holds_ledger_empty_goroutines_any_state (L : Lib) (c : Cfg) (h : List Op
 theorem holds_plugin_exits_gracefully (c : Cfg) : pluginDone Facts.resources c = true :=
   plugin_exits_gracefully _ c facts_good_files
 
+theorem holds_kill_removes_own_dir (sharedCfg : Bool) : killRemovesOwnDir Facts.resources sharedCfg = true :=
+  Props.C18.kill_removes_own_dir _ (by decide) sharedCfg
+
 end GoPlugin.Instance.C18
